@@ -127,7 +127,7 @@ def write_held_bound(d):
     return max(d["B"], d["C"]) + maxw + 2 * d["C"]
 
 
-def model_and_replay(rep, kind, scs, tag, invariants, liveness=True, variant="sched", key=None, timeout=1500):
+def model_and_replay(rep, kind, scs, tag, invariants, liveness=True, variant="sched", key=None, timeout=1500, refine=False):
     """Returns dict with tlc stats; reports violations into rep."""
     key = key or tag
     module = "ReadSession" if kind == "r" else "WriteSession"
@@ -137,25 +137,30 @@ def model_and_replay(rep, kind, scs, tag, invariants, liveness=True, variant="sc
     name_module[tag] = module
     name_module[tag + "_live"] = module
     # 1. safety, all interleavings, with the edge log
-    res = vlib.run_tlc(mc, _cfg(tag, "Spec", invariants, [], True), tag, workers=16, timeout=timeout, heap="16g")
+    # (refine: together with the action property "every step is a step of the sequential contract FileContract.tla")
+    res = vlib.run_tlc(mc, _cfg(tag, "Spec", invariants, ["RefinesContract"] if refine else [], True), tag, workers=16,
+                       timeout=timeout, heap="16g")
     rep.add_tlc(res)
     if not res["ok"]:
         if res["violated"] and "violated" in res["violated"]:
             # the SPEC (a transcription of the code under test bound by M1) violates the property
-            rep.violation("%s:spec:%s" % (key, res["violated"].split()[1]),
+            what = res["violated"].split()[1]
+            if "FileContract" in res["violated"]:
+                what = "RefinesContract"
+            rep.violation("%s:spec:%s" % (key, what),
                           "TLC: %s on %s for the configurations of '%s'" % (res["violated"], module, tag),
                           dict(tlc=S.tlc_violation_trace(res)[:6000]))
             return None
         vlib.tlc_must_pass(res, tag)
     # 2. liveness under weak fairness (no edge log)
     if liveness:
-        res2 = vlib.run_tlc(mc, _cfg(tag + "_live", "FairSpec", [], ["Termination", "RefinesContract"], False), tag + "_live",
+        res2 = vlib.run_tlc(mc, _cfg(tag + "_live", "FairSpec", [], ["Termination"], False), tag + "_live",
                             workers=16, timeout=timeout, heap="16g")
         rep.add_tlc(res2)
         if not res2["ok"]:
             if res2["violated"]:
                 rep.violation("%s:spec:Termination" % key,
-                              "TLC: %s (Termination under weak fairness / refinement of FileContract) on %s" % (res2["violated"], module),
+                              "TLC: %s (Termination under weak fairness) on %s" % (res2["violated"], module),
                               dict(tlc=S.tlc_violation_trace(res2)[:6000]))
                 return None
             vlib.tlc_must_pass(res2, tag + " liveness")
